@@ -30,11 +30,21 @@ The out/ directory is untracked; leave it in place. Do not commit anything. When
 
 
 def main():
+    # usage: mutprompt C05 [n] [round-suffix]   e.g. mutprompt C05 2 g  -> worktree /tmp/mut/C05g, earlier ideas listed
+    import glob
     pid, n = sys.argv[1], int(sys.argv[2]) if len(sys.argv) > 2 else 2
+    suf = sys.argv[3] if len(sys.argv) > 3 else ''
     for l in open('/verif/properties.jsonl'):
         p = json.loads(l)
         if p['id'] == pid:
-            print(T.format(wt='/tmp/mut/' + pid, title=p['title'], statement=p['statement'], quant=p['quantifier']['text'], n=n, pid=pid))
+            txt = T.format(wt='/tmp/mut/' + pid + suf, title=p['title'], statement=p['statement'], quant=p['quantifier']['text'], n=n, pid=pid)
+            if suf:
+                prev = []
+                for fn in sorted(glob.glob('/verif/seeded/%s*/meta.json' % pid)):
+                    prev.append(' - ' + json.load(open(fn)).get('summary', '')[:400])
+                txt += ('\nIdeas that have ALREADY been used by earlier rounds for this property - do not repeat them or close variants; '
+                        'look for different code paths, other modules that the property also depends on, other configurations:\n' + '\n'.join(prev) + '\n')
+            print(txt)
 
 
 if __name__ == '__main__':
